@@ -126,6 +126,36 @@ TreeHeight(fhi, flo) ==
       sorted == SortSeq(leaves, LAMBDA x, y : (x.f # y.f /\ FGeq(x.f, y.f)) \/ (x.f = y.f /\ x.i < y.i))
       start  == [j \in 1..NSYM |-> [f |-> sorted[j].f, h |-> 0]]
   IN FoldLeft(MergeStep, start, [j \in 1..(NSYM - 1) |-> j])[1].h
+(* ---------------------------- frequencies -> the exact code --------------------------------- *)
+\* The code libtw2 (and the reference) build for a frequency vector, tie-breaking included.  A node of
+\* the list carries its leaves with the path from the node down to each leaf: ls = <<<<sym, path>>, ..>>.
+\* Merging pops the last node a (the rarest; among equals the one that came last) and the one before
+\* it, b; a becomes child 0 and b child 1 of the new node, which is inserted behind the nodes of
+\* equal or larger frequency (a stable descending sort).  Root paths are the code words.
+MergeStepC(l, unused) ==
+  LET n == Len(l)
+      a == l[n]
+      b == l[n - 1]
+      ls == [k \in 1..Len(a.ls) |-> <<a.ls[k][1], <<0>> \o a.ls[k][2]>>] \o [k \in 1..Len(b.ls) |-> <<b.ls[k][1], <<1>> \o b.ls[k][2]>>]
+      m == [f |-> FAdd(a.f, b.f), h |-> 1 + (IF a.h > b.h THEN a.h ELSE b.h), ls |-> ls]
+      p == Cardinality({j \in 1..(n - 2) : FGeq(l[j].f, m.f)})
+  IN SubSeq(l, 1, p) \o <<m>> \o SubSeq(l, p + 1, n - 2)
+\* [h |-> height of the tree, code |-> the 257 code words (T[s + 1] for symbol s)]
+Build(fhi, flo) ==
+  LET leaves == [j \in 1..NSYM |-> [f |-> IF j = NSYM THEN Limbs(0, 1) ELSE Limbs(fhi[j], flo[j]), h |-> 0, i |-> j]]
+      sorted == SortSeq(leaves, LAMBDA x, y : (x.f # y.f /\ FGeq(x.f, y.f)) \/ (x.f = y.f /\ x.i < y.i))
+      start  == [j \in 1..NSYM |-> [f |-> sorted[j].f, h |-> 0, ls |-> <<<<sorted[j].i - 1, <<>>>>>>]]
+      root   == FoldLeft(MergeStepC, start, [j \in 1..(NSYM - 1) |-> j])[1]
+      code   == FoldLeft(LAMBDA acc, e : [acc EXCEPT ![e[1] + 1] = e[2]], [j \in 1..NSYM |-> <<>>], root.ls)
+  IN [h |-> root.h, code |-> code]
+\* the panic of known finding F2: the tree is deeper than a code word may be long
+TooDeep(h) == h > MaxCodeLen
+\* no frequency sum saturates (then the code is an optimal prefix code and CodeMonotone holds)
+NoSaturation(fhi, flo) == FoldLeft(LAMBDA acc, j : FAdd(acc, Limbs(fhi[j], flo[j])), Limbs(0, 1), [j \in 1..256 |-> j]) # Limbs(65535, 65535)
+\* a more frequent byte never has a longer code word
+CodeMonotone(T, fhi, flo) == \A a, b \in 1..256 :
+    (Limbs(fhi[a], flo[a]) # Limbs(fhi[b], flo[b]) /\ FGeq(Limbs(fhi[a], flo[a]), Limbs(fhi[b], flo[b]))) => Len(T[a]) <= Len(T[b])
+
 WellFormedFreqs(fhi, flo) == /\ Len(fhi) = 256 /\ Len(flo) = 256
                              /\ \A j \in 1..256 : fhi[j] \in 0..65535 /\ flo[j] \in 0..65535
 =============================================================================
